@@ -30,6 +30,8 @@ func StdUniverse() *Universe {
 		u.add(&Decl{Pkg: pkg, Name: "PU", Under: St(F("X", B("int")), F("y", B("string")))})
 		u.add(&Decl{Pkg: pkg, Name: "Iface", Under: IfaceM("M()")})
 		u.add(&Decl{Pkg: pkg, Name: "G", TParams: 1, Under: St(F("V", B("T0")))})
+		u.add(&Decl{Pkg: pkg, Name: "NM", Under: M(B("string"), B("int"))})
+		u.add(&Decl{Pkg: pkg, Name: "NS", Under: S(B("int"))})
 	}
 	// key enum whose members have different values on both sides (a converted key prints differently from its source)
 	u.add(&Decl{Pkg: "in", Name: "KE", Under: B("int"), Consts: []Const{{"KA", "1"}, {"KB", "2"}}})
